@@ -173,7 +173,7 @@ func rtmpCanaryMin(s *srv.Server, name string, min int) error {
 		return fmt.Errorf("canary subscriber: %w", err)
 	}
 	defer sub.Close()
-	if _, ok := s.Notify.WaitSessionFrom(5*time.Second, from, "sub_start", sub.RC.Conn.LocalAddr().String()); !ok {
+	if _, ok := s.Notify.WaitSessionFrom(5*time.Second, from, "sub_start", srv.Key(sub.RC.Conn)); !ok {
 		return fmt.Errorf("canary subscriber was not admitted within 5 s")
 	}
 	pub, err := ref.StartRtmpPublisher(s.RtmpAddr(), "live", name, 5*time.Second)
